@@ -125,8 +125,32 @@ func refCTResolve(t hCT, conds map[string]bool) (string, int) {
 	return "", ctUndefined
 }
 
+// hGenCTShape: the fallback-array family one level deeper than the generic
+// quick bound: {cond: [item, item], "default": leaf} where an item is a leaf or
+// a single-condition object.
+func hGenCTShape() hCT {
+	item := func() hCT {
+		if vBool() {
+			return hGenCT(0)
+		}
+		return hCT{kind: 4, keys: []string{hCondNames[vChoose(2)]}, vals: []hCT{hGenCT(0)}}
+	}
+	arr := hCT{kind: 3, arr: []hCT{item(), item()}}
+	top := hCT{kind: 4, keys: []string{hCondNames[vChoose(2)]}, vals: []hCT{arr}}
+	if vBool() {
+		top.keys = append(top.keys, "default")
+		top.vals = append(top.vals, hGenCT(0))
+	}
+	return top
+}
+
 func vK11cConditions() {
-	t := hGenCT(vParam("DEPTH", 2))
+	var t hCT
+	if vParam("SHAPE", 0) != 0 {
+		t = hGenCTShape()
+	} else {
+		t = hGenCT(vParam("DEPTH", 2))
+	}
 	conds := map[string]bool{}
 	for i, c := range []string{"node", "browser", "import"} {
 		if i < vParam("NAMES", 3)-1 && vBool() {
